@@ -551,3 +551,64 @@ def excorigin(ctx, pid):
                 "`%s` in %s is %s, not the class of trie.exceptions: callers catching trie.exceptions.%s no longer see these refusals" % (u, m.rel, why, u))
     if not bad:
         ctx.ok("exception-origins", "trie/", "%d exception names raised or caught in scope denote builtins, local classes or trie.exceptions classes (1 frozen exception: fog.ValidationError)" % n, nontrivial=bool(n))
+
+
+@rule("EXCACC", ["C07", "C08", "C01"])
+def excacc(ctx, pid):
+    """Exception payload accessors: a property `x` of an exception class that returns `self.args[i]` reads the slot
+    the constructor fills from its parameter `x` (the i-th argument of super().__init__).  The callers' reports
+    (which hash is missing, under which root, for which key, at which prefix) are only as good as this table."""
+    m = ctx.P.modules.get("trie.exceptions")
+    if m is None:
+        raise AnalysisError("anchor vanished: trie.exceptions")
+    n = 0
+    bad = []
+    for cname, cls in sorted(m.classes.items()):
+        init = cls.methods.get("__init__")
+        if init is None:
+            continue
+        sup = None
+        for nd in walk_shallow(init.node):
+            if isinstance(nd, ast.Call) and isinstance(nd.func, ast.Attribute) and nd.func.attr == "__init__" \
+                    and isinstance(nd.func.value, ast.Call) and ast.unparse(nd.func.value.func) == "super":
+                sup = nd
+        if sup is None:
+            continue
+        binds = ctx.E.bindings(init)
+
+        def deps(e, depth=0):
+            out = set()
+            for x in ast.walk(e):
+                if isinstance(x, ast.Name) and isinstance(x.ctx, ast.Load):
+                    if x.id in init.all_params():
+                        out.add(x.id)
+                    elif depth < 3:
+                        for b in binds.get(x.id, []):
+                            if isinstance(b, ast.AST):
+                                out |= deps(b, depth + 1)
+            return out
+        slots = [deps(a) if not isinstance(a, ast.Starred) else None for a in sup.args]
+        for pname, meth in sorted(cls.methods.items()):
+            if not meth.is_property:
+                continue
+            rets = [r for r in walk_shallow(meth.node) if isinstance(r, ast.Return) and r.value is not None]
+            if len(rets) != 1:
+                continue
+            v = rets[0].value
+            if not (isinstance(v, ast.Subscript) and isinstance(v.value, ast.Attribute) and v.value.attr == "args"
+                    and isinstance(v.slice, ast.Constant) and isinstance(v.slice.value, int)):
+                continue
+            n += 1
+            i = v.slice.value
+            c = "accessor:%s.%s" % (cname, pname)
+            if i < 0 or i >= len(slots) or slots[i] is None:
+                bad.append((c, meth, "reads args[%d], which the constructor does not fill positionally" % i))
+            elif slots[i] != {pname}:
+                bad.append((c, meth, "reads args[%d], which the constructor fills from `%s`, not from its `%s` argument" % (i, ", ".join(sorted(slots[i])) or "a constant", pname)))
+    for c, meth, why in bad:
+        ctx.bad(c, meth.loc(), "%s %s" % (fkey(meth), why))
+    if not bad:
+        if n < 9:
+            ctx.unsure("accessors:trie.exceptions", "trie/exceptions.py", "only %d args[i] accessors found, 9 were confirmed by hand" % n)
+        else:
+            ctx.ok("accessors:trie.exceptions", "trie/exceptions.py", "%d accessors each read the args slot filled from the constructor argument of the same name" % n)
